@@ -64,3 +64,10 @@ def writer(detector, pixel_add=0.0, signal=None, image=None, photon=None, **kwar
         detector.signal.array = np.full(shape, float(signal))
     if image is not None:
         detector.image.array = np.full(shape, int(image), dtype=np.uint16)
+
+
+def fail_if(detector, level=0, **kwargs):
+    """Fails when level == 2 (used to place a fault at a chosen run of a sweep)."""
+    probe(detector, level=level, **kwargs)
+    if level == 2:
+        raise ProbeError(f"probe failure at level {level}")
